@@ -1272,6 +1272,10 @@ class Model:
             elem = lambda k: tup([V(seq_at(seq.term, k, m.ty.key), m.ty.key),
                                   V(map_get(m.term, seq_at(seq.term, k, m.ty.key), m.ty.key, m.ty.val), m.ty.val)])
             return self.invariant_for(ex, s, key, seq, elem, st)
+        if it.ty is PY and isinstance(it.py, tuple) and it.py and it.py[0] == "genexp":
+            q = map_seq(self, ex, it, st)              # for x in (f(y) for y in seq): the mapped sequence, element by element
+            if q is not None and isinstance(q.ty, SeqT):
+                it = q
         if isinstance(it.ty, SeqT):
             elem = lambda k: V(seq_at(it.term, k, it.ty.elem), it.ty.elem)
             return self.invariant_for(ex, s, key, it, elem, st)
